@@ -160,6 +160,8 @@ func runAll(c *fw.Ctx) {
 	pool := g.definite(xs)
 	pool = append(pool, g.texts(ts)...)
 	g.headers()
+	g.pairwise(xs)
+	g.sequence(xs)
 	g.deep(xs)
 	g.big(xs, ts)
 	g.random(xs, ts)
@@ -254,6 +256,7 @@ func (g *generator) definite(xs []seedDoc) []Body {
 		bodies = append(bodies, semMutants(sd)...)
 		bodies = append(bodies, boundaryMutants(sd)...)
 		bodies = append(bodies, structuralSingles(sd)...)
+		bodies = append(bodies, noRootBodies(sd.Fam)...)
 		pool = append(pool, bodies...)
 		for bi, b := range bodies {
 			n := len(rts)
@@ -681,5 +684,155 @@ func (g *generator) chaos(xs, ts []seedDoc, pool []Body) {
 			}
 			return cs
 		})
+	}
+}
+
+// pairwise: every by-construction malformed operator crossed with every
+// unusual-but-valid feature of the same REPORT document (selection forms,
+// limits 0/1/huge/absent, expand present/absent, empty lists...), with the
+// Depth header and the Content-Type spelling rotating. The malformed part
+// obliges 4xx whatever the rest of the document says.
+func (g *generator) pairwise(xs []seedDoc) {
+	depths := []HV{{}, hv("0", "valid"), hv("1", "valid"), hv("infinity", "valid"), hv("Infinity", "boundary"), hv("2", "invalid")}
+	for _, sd := range xs {
+		target := docTarget(sd.Fam)
+		if target == "" || strings.HasPrefix(sd.Fam, "mkcol") {
+			continue
+		}
+		var rts []route
+		for _, r := range routesFor(sd.Fam) {
+			if r.Target == target {
+				rts = append(rts, r)
+			}
+		}
+		for vi, v := range variants(sd) {
+			var bodies []Body
+			bodies = append(bodies, validXMLBody(v, false))
+			bodies = append(bodies, semMutants(v)...)
+			bodies = append(bodies, syntaxSubset(v)...)
+			bodies = append(bodies, wrongRootMutants(v)[:2]...)
+			feat := v.Name[strings.Index(v.Name, " & ")+3:]
+			for bi, b := range bodies {
+				b.Mut += " & " + feat
+				n := 1
+				if g.c.Thorough() {
+					n = len(rts)
+				}
+				for k := 0; k < n; k++ {
+					r, b, i := rts[(bi+vi+k)%len(rts)], b, bi+vi+k
+					g.emit(func() *Case {
+						cs := r.mk("pairwise", b, i)
+						cs.Depth = depths[i%len(depths)]
+						return cs
+					})
+				}
+			}
+		}
+	}
+}
+
+// sequence: request A ends on a failure path (body that breaks off after a
+// complete valid document, body of 1 MiB+1 .. 5 MiB that begins with a
+// complete valid document, cancelled context) and is immediately followed, in
+// this process, by request B = a malformed-by-construction request to an
+// XML-decoding entry point. Only process-wide state of the library can link
+// the two; B is judged by the usual oracle.
+func (g *generator) sequence(xs []seedDoc) {
+	type ent struct {
+		target, method string
+		lp
+		fams []string // seed families whose documents this entry point accepts
+	}
+	cal, card := calLayout(""), cardLayout("")
+	pf := []string{"propfind"}
+	ents := []ent{
+		{"webdav", "PROPFIND", lp{"dir", "/dir/"}, pf},
+		{"caldav", "PROPFIND", lp{"collection", cal.Coll}, pf},
+		{"carddav", "PROPFIND", lp{"object", card.Obj}, pf},
+		{"principal", "PROPFIND", lp{"principal", "/u1/"}, pf},
+		{"webdav", "PROPPATCH", lp{"file", "/file.txt"}, []string{"propertyupdate"}},
+		{"caldav", "PROPPATCH", lp{"collection", cal.Coll}, []string{"propertyupdate"}},
+		{"carddav", "PROPPATCH", lp{"home-set", card.Home}, []string{"propertyupdate"}},
+		{"caldav", "REPORT", lp{"collection", cal.Coll}, []string{"calendar-query", "calendar-multiget"}},
+		{"carddav", "REPORT", lp{"collection", card.Coll}, []string{"addressbook-query", "addressbook-multiget"}},
+		{"caldav", "MKCOL", lp{"new-collection", cal.NewColl}, []string{"mkcol-cal"}},
+		{"carddav", "MKCOL", lp{"new-collection", card.NewColl}, []string{"mkcol-card"}},
+	}
+	type anomaly struct {
+		name string
+		set  func(a *Case)
+	}
+	const mib = 1 << 20
+	anomalies := []anomaly{
+		{"read-error", func(a *Case) { a.BodyErr = true }},
+		{"read-error-after-junk", func(a *Case) {
+			a.Body.Data = append(append([]byte{}, a.Body.Data...), " trailing junk <"...)
+			a.Body.Root, a.Body.Mut = "", "valid+junk"
+			a.BodyErr = true
+		}},
+		{"1MiB+1", func(a *Case) { a.BodyPad = mib + 1 - len(a.Body.Data) }},
+		{"2MiB-spaces", func(a *Case) { a.BodyPad, a.PadWith = 2*mib, " " }},
+		{"5MiB", func(a *Case) { a.BodyPad = 5 * mib }},
+		{"cancelled", func(a *Case) { a.Cancelled = true }},
+		{"cancelled+read-error", func(a *Case) { a.Cancelled, a.BodyErr = true, true }},
+	}
+	inFams := func(f string, l []string) bool {
+		for _, x := range l {
+			if x == f {
+				return true
+			}
+		}
+		return false
+	}
+	other := seedByName["propfind-propname"]
+	for ei, en := range ents {
+		// B bodies: the malformed classes this entry point can meet
+		home := seedByName[map[string]string{"propfind": "propfind-prop", "propertyupdate": "propertyupdate", "calendar-query": "calendar-query-rich",
+			"addressbook-query": "addressbook-query-rich", "mkcol-cal": "mkcol-cal", "mkcol-card": "mkcol-card"}[en.fams[0]]]
+		var bs []Body
+		bs = append(bs, noRootBodies(home.Fam)[:4]...)
+		bs = append(bs, syntaxSubset(home)[6:]...) // lt/entity/unclosed + three truncations
+		bs = append(bs, Body{Mut: "empty"})
+		wrong := other
+		if en.fams[0] == "propfind" {
+			wrong = seedByName["propertyupdate"]
+		}
+		bs = append(bs, validXMLBody(wrong, false))
+		if en.method == "REPORT" {
+			sm := semMutants(home)
+			bs = append(bs, sm[0], sm[len(sm)/2], sm[len(sm)-1])
+		}
+		for _, sd := range xs {
+			match := inFams(sd.Fam, en.fams)
+			if !match && !g.c.Thorough() {
+				continue
+			}
+			for ai, an := range anomalies {
+				for bi, b := range bs {
+					for ar := 0; ar < 3; ar++ {
+						// A goes to the same entry point, to PROPFIND on the file
+						// server, or to the principal helper.
+						if ar > 0 && !g.c.Thorough() && (ai+bi+ar)%2 == 0 {
+							continue
+						}
+						en, sd, an, b, ar, i := en, sd, an, b, ar, ei+ai+bi
+						g.emit(func() *Case {
+							a := &Case{Fam: "sequence", Target: en.target, Method: en.method, Path: en.Path, Level: en.Level,
+								CT: ctFor("xml", i), Body: validXMLBody(sd, i%2 == 0)}
+							switch ar {
+							case 1:
+								a.Target, a.Method, a.Path, a.Level = "webdav", "PROPFIND", "/dir/", "dir"
+							case 2:
+								a.Target, a.Method, a.Path, a.Level = "principal", "PROPFIND", "/u1/", "principal"
+							}
+							an.set(a)
+							cs := &Case{Fam: "sequence", Target: en.target, Method: en.method, Path: en.Path, Level: en.Level,
+								CT: ctFor("xml", i+1), Body: b, Prev: a, Repeat: 3}
+							return cs
+						})
+					}
+				}
+			}
+		}
 	}
 }
